@@ -151,6 +151,14 @@ Proof.
   destruct H as [(HF & _) _]. repeat split. destruct c; [constructor | exact HF].
 Qed.
 
+(* after a reset in the middle of the call: whatever is still queued is no new File Data *)
+Lemma pres_sadd_R : forall n p, fd_within n p -> pres (R n) (R n) (sadd_packet p).
+Proof.
+  intros n p Hp s H. unfold sadd_packet, modify. cbn [fst]. destruct s. unf. cbn in *.
+  destruct H as (HF & H1 & H2). repeat split; try assumption.
+  apply Forall_app. split; [exact HF | constructor; [exact Hp | constructor]].
+Qed.
+
 Ltac bb_step :=
   cbv beta zeta;
   match goal with
@@ -159,6 +167,7 @@ Ltac bb_step :=
   | |- pres ?P ?P (ret _) => apply pres_ret
   | |- pres ?P ?P (raise _) => apply pres_raise
   | |- pres _ _ (when ?b _) => destruct b; [rewrite when_true | rewrite when_false]
+  | |- pres (R _) (R _) (sadd_packet _) => apply pres_sadd_R; exact I
   | |- pres _ _ (sadd_packet _) => apply pres_sadd; exact I
   | |- pres _ _ (if ?b then _ else _) => destruct b
   | |- pres _ _ (match ?x with _ => _ end) => destruct x
@@ -171,6 +180,8 @@ Proof. intro. minv. Qed.
 #[local] Hint Resolve fr_checksum : minv.
 
 Lemma bb_prepare_eof : forall X n ck, pres (Bq X n) (Bq X n) (prepare_eof_pdu ck).
+Proof. intros. bb. Qed.
+Lemma rr_prepare_eof : forall n ck, pres (R n) (R n) (prepare_eof_pdu ck).
 Proof. intros. bb. Qed.
 Lemma bb_prepare_metadata : forall X n, pres (Bq X n) (Bq X n) prepare_metadata_pdu.
 Proof. intros. bb. Qed.
@@ -320,6 +331,19 @@ Proof.
   - apply jj_fr. minv.
 Qed.
 
+Lemma pres_J_split {A} n (m : SM A) : pres (B n) (B n) m -> pres (R n) (R n) m -> pres (J n) (J n) m.
+Proof. intros Hb Hr s [H|H]; [left; apply Hb, H | right; apply Hr, H]. Qed.
+
+(* the EOF sent again (below the limit, or at the limit with the fault ignored: F34 repair); no File Data *)
+Lemma jj_resend : forall n nw tmo cnt, pres (J n) (J n)
+  (setq (fun q => q <| q_ack_timer := Some (nw, tmo) |> <| q_ack_counter := cnt + 1 |>) ;;;
+   pr <- gq q_progress ;; ck <- checksum_calculation pr ;; prepare_eof_pdu ck)%monad.
+Proof.
+  intros n nw tmo cnt. apply pres_J_split.
+  - do 3 (apply (pres_bind _ (B n) _); [bb | trivial | intro]). apply bb_prepare_eof.
+  - do 3 (apply (pres_bind _ (R n) _); [bb | trivial | intro]). apply rr_prepare_eof.
+Qed.
+
 Lemma bj_positive_ack : forall X n, pres (Bq X n) (J n) handle_positive_ack_procedures_s.
 Proof.
   intros X n. unfold handle_positive_ack_procedures_s.
@@ -329,10 +353,13 @@ Proof.
   apply (pres_bind _ (Bq X n) _); [bb | apply Bq_J | intro nw].
   destruct (negb (timed_out nw tm)); [bj|].
   apply (pres_bind _ (Bq X n) _); [bb | apply Bq_J | intro cnt].
-  destruct (r_ack_limit r <=? cnt + 1); [apply bj_declare_fault|].
-  apply (pres_post _ (Bq X n)); [apply Bq_J|].
-  do 3 (apply (pres_bind _ (Bq X n) _); [bb | trivial | intro]).
-  apply bb_prepare_eof.
+  cbv zeta.
+  destruct (r_ack_limit r <=? cnt + 1).
+  - (* the limit fault; ignored, the procedure carries on (F34 repair) *)
+    apply (pres_bind _ (J n) _); [apply bj_declare_fault | trivial | intros _].
+    apply (pres_bind _ (J n) _); [apply jj_fr; minv | trivial | intro l].
+    destruct (fault_ignored l C_POS_ACK_LIMIT); [apply jj_resend | apply pres_ret].
+  - apply (pres_pre (J n)); [apply Bq_J | apply jj_resend].
 Qed.
 
 Lemma bj_waiting_for_ack : forall n pkt,
@@ -355,11 +382,22 @@ Proof.
   - destruct rt; [bj|].
     assert (Hd : pres (B n) (J n)
       (t <- gq q_check_timer ;; n0 <- snow ;;
-       match t with Some tm => when (timed_out n0 tm) (declare_fault_s C_CHECK_LIMIT) | None => ret tt end)%monad).
+       match t with
+       | Some tm =>
+           when (timed_out n0 tm)
+             (declare_fault_s C_CHECK_LIMIT ;;;
+              l <- gets s_cfg ;;
+              when (fault_ignored l C_CHECK_LIMIT) (setq (fun q => q <| q_check_timer := Some (n0, snd tm) |>)))
+       | None => ret tt
+       end)%monad).
     { apply (pres_bind _ (B n) _); [bb | apply B_J | intro t].
       apply (pres_bind _ (B n) _); [bb | apply B_J | intro nw].
       destruct t as [tm|]; [|bj]. destruct (timed_out nw tm); [rewrite when_true | rewrite when_false; bj].
-      apply bj_declare_fault. }
+      (* the check limit fault; ignored, the timer is restarted (F34 repair) *)
+      apply (pres_bind _ (J n) _); [apply bj_declare_fault | trivial | intros _].
+      apply (pres_bind _ (J n) _); [apply jj_fr; minv | trivial | intro l].
+      destruct (fault_ignored l C_CHECK_LIMIT); [rewrite when_true | rewrite when_false; apply pres_ret].
+      apply jj_fr. minv. }
     destruct pkt as [[]|]; try exact Hd.
     apply (pres_bind _ (B n) _); [bb | apply B_J | intros _].
     apply (pres_bind _ (B n) _); [bb | apply B_J | intro ac2].
